@@ -162,6 +162,11 @@ def _worker(job):
                     out.setdefault("acc", arch_name(art.arch))
                 out.setdefault("op_meta", []).append(pipeline.op_meta(art))
                 feats |= pipeline.stream_features(art)
+            if "inference" in want and ext is not None:
+                try:
+                    out["inference_line"] = pipeline.inference_line(res, ext)
+                except Exception:
+                    out.setdefault("harness_errors", []).append(traceback.format_exc()[-800:])
             out["extents"] = ext
             if "extra" in want:
                 out["extra"] = want["extra"](res)
